@@ -16,7 +16,6 @@ import (
 	"errors"
 	"fmt"
 	"math/big"
-	"os"
 	"sort"
 	"time"
 
@@ -35,6 +34,12 @@ import (
 )
 
 const maxAccts = 6
+
+// stable prefixes of the two open known findings (known_findings.json matches on them)
+const (
+	knownGap  = "C41-interior-gap-after-reinjection: pending list with an interior nonce gap (front nonce = state nonce) after a Reset that lowered the account's nonce below its pending txs and whose reinjection left a dropped tx of the account out of the pool"
+	knownBump = "C41-bump-bypass-via-eviction: a tx entered through the pool-full path of add while its same-sender same-nonce predecessor was evicted by Discard, replacing it below the configured price bump"
+)
 
 var (
 	keys  [maxAccts]*ecdsa.PrivateKey
@@ -203,8 +208,8 @@ type runner struct {
 	tags             map[string]bool
 	fails            []string
 	maxPooled        int
-	tainted          [maxAccts]bool // a Reset moved the state nonce below the account's pending txs (guard of C41_pending_gapless)
-	strict           bool           // C41_STRICT=1: report the two refuted clauses as oracle failures too
+	gapKnown         [maxAccts]bool // the verified mechanism of finding C41-interior-gap-after-reinjection occurred for this account
+	known            map[string]bool // open known findings observed (reported only when nothing else failed)
 }
 
 func (r *runner) fail(format string, a ...interface{}) {
@@ -296,8 +301,11 @@ func (r *runner) oracle(d *legacypool.VerifDump, head *blockSpec, afterCycle boo
 					r.fail("pending tx of account %d signed by someone else", i)
 				}
 				if tx.Nonce() != stNonce+uint64(k) {
-					if r.tainted[i] && !r.strict {
-						r.tags["finding_gap"] = true // C41_pending_gapless_refuted: outside the theorem's guard
+					if r.gapKnown[i] && p.Txs[0].Nonce() == stNonce {
+						// interior gap, front nonce = state nonce, after a Reset that lowered the nonce below the
+						// pending txs and whose reinjection left a dropped tx of this account out of the pool
+						r.known[knownGap] = true
+						r.tags["finding_gap"] = true
 						break
 					}
 					r.fail("pending_gapless: account %d pending nonces %v, state nonce %d", i, nonceList(p.Txs), stNonce)
@@ -329,8 +337,12 @@ func (r *runner) oracle(d *legacypool.VerifDump, head *blockSpec, afterCycle boo
 				r.fail("pending list not strict")
 			}
 		}
-		if r.pool.Nonce(a) != stNonce+uint64(len(txsOf(d.Pending[a]))) && (!r.tainted[i] || r.strict) {
-			r.fail("pending nonce of account %d is %d, want state nonce %d + %d pending", i, r.pool.Nonce(a), stNonce, len(txsOf(d.Pending[a])))
+		if r.pool.Nonce(a) != stNonce+uint64(len(txsOf(d.Pending[a]))) {
+			if r.gapKnown[i] { // consequence of the interior gap (setAll / Ready below the pending nonce)
+				r.known[knownGap] = true
+			} else {
+				r.fail("pending nonce of account %d is %d, want state nonce %d + %d pending", i, r.pool.Nonce(a), stNonce, len(txsOf(d.Pending[a])))
+			}
 		}
 		if q := d.Queue[a]; q != nil {
 			if len(q.Txs) == 0 {
@@ -424,7 +436,11 @@ func nonceList(txs types.Transactions) []uint64 {
 }
 
 // replacement_requires_bump, for a single accepted tx
-func (r *runner) checkBump(pre *legacypool.VerifDump, nt *types.Transaction, from int) {
+func (r *runner) checkBump(pre, postDump *legacypool.VerifDump, nt *types.Transaction, from int) {
+	post := map[common.Hash]bool{}
+	for _, tx := range postDump.All {
+		post[tx.Hash()] = true
+	}
 	check := func(l *legacypool.VerifList) {
 		for _, old := range txsOf(l) {
 			if old.Nonce() != nt.Nonce() || old.Hash() == nt.Hash() {
@@ -437,9 +453,11 @@ func (r *runner) checkBump(pre *legacypool.VerifDump, nt *types.Transaction, fro
 			}
 			if nt.GasFeeCap().Cmp(old.GasFeeCap()) <= 0 || nt.GasTipCap().Cmp(old.GasTipCap()) <= 0 ||
 				nt.GasFeeCap().Cmp(thr(old.GasFeeCap())) < 0 || nt.GasTipCap().Cmp(thr(old.GasTipCap())) < 0 {
-				if uint64(pre.Slots+legacypool.VerifNumSlots(nt)) > r.cfg.GlobalSlots+r.cfg.GlobalQueue && !r.strict {
-					// the pool was full: the old tx was evicted as the cheapest one and the new one
-					// queued afresh (C41_replacement_requires_bump_refuted); outside the theorem's guard
+				if uint64(pre.Slots+legacypool.VerifNumSlots(nt)) > r.cfg.GlobalSlots+r.cfg.GlobalQueue && !post[old.Hash()] && post[nt.Hash()] {
+					// the new tx entered through the pool-full path of pool.add, its same-sender same-nonce
+					// predecessor was evicted by pricedList.Discard and the new one inserted afresh, so
+					// list.Add's bump check was never reached (C41_replacement_requires_bump_refuted)
+					r.known[knownBump] = true
 					r.tags["finding_bump_evict"] = true
 					continue
 				}
@@ -463,7 +481,7 @@ func run(c Sx) (res Result) {
 	}
 	r := &runner{bump: conf[0], naccts: int(conf[5]), txs: map[uint64]*types.Transaction{}, specOf: map[uint64]*txSpec{},
 		idOf: map[common.Hash]uint64{}, hdrOf: map[uint64]*types.Header{}, bspec: map[uint64]*blockSpec{}, tags: map[string]bool{}}
-	r.strict = os.Getenv("C41_STRICT") == "1"
+	r.known = map[string]bool{}
 	if r.naccts < 1 || r.naccts > maxAccts {
 		panic("hxlib: account count out of range")
 	}
@@ -558,6 +576,11 @@ func run(c Sx) (res Result) {
 		pre := r.pool.VerifDump()
 		var errs []Sx
 		afterCycle := false
+		var bumpTx *types.Transaction
+		bumpFrom := 0
+		var lostMissing [maxAccts]bool // Reset: a dropped (lost) tx of the account is not pooled afterwards
+		var regressed [maxAccts]bool   // Reset: state nonce moved below the account's lowest pending nonce
+		var lost []uint64
 		switch f[0] {
 		case 0:
 			var batch []*types.Transaction
@@ -581,7 +604,7 @@ func run(c Sx) (res Result) {
 				if cl == 0 {
 					afterCycle = true
 					if len(batch) == 1 {
-						r.checkBump(pre, batch[i], int(r.specOf[f[1]].from))
+						bumpTx, bumpFrom = batch[i], int(r.specOf[f[1]].from)
 					}
 				}
 			}
@@ -604,10 +627,11 @@ func run(c Sx) (res Result) {
 			}
 			for i := 0; i < r.naccts; i++ {
 				if p := pre.Pending[addrs[i]]; p != nil && len(p.Txs) > 0 && nb.nonces[i] < p.Txs[0].Nonce() {
-					r.tainted[i] = true
+					regressed[i] = true
 					r.tags["regress_below_pending"] = true
 				}
 			}
+			lost = r.lostTxs(head, nb)
 			r.chain.head = newHdr
 			r.pool.Reset(headHdr, newHdr)
 			head, headHdr = nb, newHdr
@@ -670,6 +694,26 @@ func run(c Sx) (res Result) {
 			d = r.pool.VerifDump()
 			r.tags["reheap_norm"] = true
 		}
+		if len(lost) > 0 {
+			r.tags["reinject"] = true
+			pooled := map[common.Hash]bool{}
+			for _, tx := range d.All {
+				pooled[tx.Hash()] = true
+			}
+			for _, id := range lost {
+				if !pooled[r.txs[id].Hash()] {
+					lostMissing[r.specOf[id].from] = true
+				}
+			}
+		}
+		for i := 0; i < r.naccts; i++ {
+			if regressed[i] && lostMissing[i] {
+				r.gapKnown[i] = true
+			}
+		}
+		if bumpTx != nil {
+			r.checkBump(pre, d, bumpTx, bumpFrom)
+		}
 		r.oracle(d, head, afterCycle)
 		r.noteEvents(pre, d)
 		obs = append(obs, L(L(errs...), r.dumpSx(d)))
@@ -681,9 +725,51 @@ func run(c Sx) (res Result) {
 	res.Tags = append(res.Tags, fmt.Sprintf("ops%d", min(nops/5*5, 40)), fmt.Sprintf("accts%d", r.naccts))
 	res.NonTrivial = nops >= 5 && r.maxPooled >= 3
 	if len(r.fails) > 0 {
-		res.Oracle = fmt.Sprint(r.fails)
+		res.Oracle = fmt.Sprint(r.fails) // anything else than an open known finding is reported on its own
+	} else if len(r.known) > 0 {
+		var ks []string
+		for k := range r.known {
+			ks = append(ks, k)
+		}
+		sort.Strings(ks)
+		res.Oracle = fmt.Sprint(ks)
 	}
 	return res
+}
+
+// lostTxs mirrors which txs a Reset(old -> new) has to reinject: those of the blocks dropped
+// from the old branch that are not in the blocks added by the new branch (harness-side, on specs).
+func (r *runner) lostTxs(old, nw *blockSpec) []uint64 {
+	if old.id == nw.parent && nw.id != 0 {
+		return nil
+	}
+	var disc []uint64
+	incl := map[uint64]bool{}
+	rem, add := old, nw
+	for rem.num > add.num {
+		disc = append(disc, rem.txids...)
+		rem = r.bspec[rem.parent]
+	}
+	for add.num > rem.num {
+		for _, id := range add.txids {
+			incl[id] = true
+		}
+		add = r.bspec[add.parent]
+	}
+	for rem.id != add.id {
+		disc = append(disc, rem.txids...)
+		for _, id := range add.txids {
+			incl[id] = true
+		}
+		rem, add = r.bspec[rem.parent], r.bspec[add.parent]
+	}
+	var out []uint64
+	for _, id := range disc {
+		if !incl[id] {
+			out = append(out, id)
+		}
+	}
+	return out
 }
 
 // noteEvents derives input-distribution tags from the state change of one op.
@@ -878,8 +964,18 @@ func (g *gen) child(parent *blockSpec) *blockSpec {
 				b.txids = append(b.txids, t.id)
 				b.nonces[a]++
 			}
-		case x < 48:
-			b.nonces[a] += uint64(r.Range(1, 2)) // txs we never saw
+		case x < 48: // txs mined without ever having been submitted to the pool
+			for k := r.Range(1, 2); k > 0; k-- {
+				t := g.newTx(a, b.nonces[a])
+				t.slots, t.intr = 1, intrinsic(1)
+				t.gas = t.intr
+				if t.tip > t.feecap {
+					t.tip = t.feecap
+				}
+				g.txs = append(g.txs, t)
+				b.txids = append(b.txids, t.id)
+				b.nonces[a]++
+			}
 		}
 		if r.Chance(3, 10) {
 			b.bals[a] = g.pickBalance()
